@@ -102,6 +102,10 @@ fn c09_case<F: Fam>(spec: &CaseSpec) {
     c1.cache = true;
     with_acc(|a| a.current_case = Some(light_case(spec, inst.as_ref())));
     let o1 = run_solver(&inst, &c1);
+    // large deceptive instances: the non-caching search is orders of magnitude longer than the caching one; three times
+    // out of four it is stopped at its first cutoff poll and the caching solver is judged against the oracle alone
+    let oracle_only = spec.family == 'T' && spec.size & crate::models::tmodel::F_DECEPTIVE != 0 && spec.gen_seed % 4 != 0;
+    if oracle_only { c0.cutoff_k = 1; }
     let o0 = run_solver(&inst, &c0);
     let spec1 = with_grants(&CaseSpec { cfg: c1, ..spec.clone() }, &o1);
     with_acc(|a| {
@@ -124,11 +128,18 @@ fn c09_case<F: Fam>(spec: &CaseSpec) {
             return;
         }
         let (e1, v1) = match o1.completion { Some(c) => c, None => return };
+        // the caching run itself ran out of logical steps: no verdict
+        if o1.cutoff_fired { a.inconclusive("step budget exhausted by the caching solver", light_case(&spec1, inst.as_ref())); return; }
         let opt = inst.optimum();
         let uncached_ok = o0.livelock.is_none() && o0.completion.map_or(false, |(e, v)| e && v == opt);
+        // the non-caching run of a long search may exhaust the logical step budget (it explores much more): it then says
+        // nothing, and the value of the caching solver is judged against the oracle alone
+        let uncached_cut = o0.cutoff_fired && o0.lib_panic().is_none();
+        if oracle_only { a.bump("pairs_judged_against_the_oracle_alone_(non_caching_run_skipped)", 1); }
+        else if uncached_cut { a.bump("pairs_where_the_non_caching_run_exhausted_the_step_budget", 1); }
         if v1 != opt || !e1 {
-            if uncached_ok || o0.livelock.is_some() {
-                a.violation(PROP, "value_changed_by_cache", format!("caching solver reports {v1:?} (is_exact={e1}); non-caching solver reports {:?}; optimum {opt:?}", o0.completion.map(|c| c.1)), J::obj().set("parallel", J::Bool(spec.cfg.par.is_some())), case());
+            if uncached_ok || o0.livelock.is_some() || uncached_cut {
+                a.violation(PROP, "value_changed_by_cache", format!("caching solver reports {v1:?} (is_exact={e1}); non-caching solver reports {:?}{}; optimum {opt:?}", o0.completion.map(|c| c.1), if uncached_cut { " (step budget exhausted)" } else { "" }), J::obj().set("parallel", J::Bool(spec.cfg.par.is_some())), case());
             } else { a.bump("both_wrong_not_this_property", 1); }
         } else if let Some(sol) = &o1.best_solution {
             match inst.replay(sol, None) {
@@ -150,7 +161,7 @@ pub fn run_c09(shard: &Shard) -> i32 {
     if let Some(path) = &shard.replay { return replay(path, PROP); }
     case_loop(shard, u64::MAX, |_i, rng| {
         let kind = if shard.idx % 4 == 3 { 2 } else if shard.idx % 4 == 2 { 1 } else { 0 };
-        let p = Profile { with_dominance: true, reconvergent: rng.chance(3, 4), small: rng.chance(1, 2), depth_free_bias: rng.chance(1, 2), medium_share: 2, large_share: if shard.idx % 4 == 3 { 10 } else if shard.idx % 8 == 4 { 8 } else { 0 }, ..Default::default() };
+        let p = Profile { with_dominance: true, reconvergent: rng.chance(3, 4), small: rng.chance(1, 2), depth_free_bias: rng.chance(1, 2), medium_share: 2, large_share: if shard.idx % 4 == 3 { 10 } else if shard.idx % 8 == 4 { 8 } else { 0 }, deceptive_share: if shard.idx % 8 == 7 { 12 } else { 0 }, ..Default::default() };
         let mut spec = if kind == 1 { let mut s = tiny_spec(rng, false); if rng.chance(1, 2) { s.size |= crate::models::tmodel::F_RECONVERGENT; } s } else { random_spec(rng, &p) };
         spec.cfg.monitors = 0;
         match kind {
